@@ -78,6 +78,9 @@ pub struct Bounds {
     /// The node that gets isolated (C07), if any.
     pub lagger: Option<usize>,
     pub heal_us: u64,
+    /// (peer, from, until): the peer does not see anything the lagger sends to its consensus port.
+    #[serde(default)]
+    pub deaf: Option<(usize, u64, u64)>,
 }
 
 /// Content-triggered slow-leader fault: when round r-1 is first seen on the wire and r is in
